@@ -126,6 +126,11 @@ def parse_trace(text):
     return calls, marks
 
 
+def parse_blocks(text):
+    """{k: number of caller-owned heap blocks still allocated at marker k} (-1: library built without ASan)."""
+    return {int(m.group(1)): int(m.group(2)) for m in re.finditer(r"^MARK (\d+) live=-?\d+ blocks=(-?\d+)", text, re.M)}
+
+
 def parse_out(text):
     out = {}
     for ln in text.split("\n"):
